@@ -180,6 +180,24 @@ Theorem c12_reenc_canonicalises data r :
                     ++ spec_sets (map clear_forbidden sps) ++ [countN pps] ++ spec_sets (map clear_forbidden pps).
 Proof. exact (rec_reenc_canonicalises data r). Qed.
 
+(* The same for the sample reader (every NAL length size 1..4, fresh receiver) and the NAL unit
+   reader: a well-formed byte string they accept IS the ISO 5.3.4.2 layout for that length size
+   -- units non-empty and shorter than 256^(lsm1+1), nothing left over -- read as those units;
+   re-marshalling writes it back with every forbidden_zero_bit cleared, i.e. reproduces every
+   canonical input exactly. *)
+Theorem c12_sample_reader_inversion lsm1 data ns :
+  lsm1 < 4 -> wf_bytes data -> sample_unmarshal lsm1 [] data = (ns, Ok tt) ->
+  exists nbs : list bytes,
+    data = spec_sample lsm1 nbs /\ Forall (fun nb => nb <> [] /\ lenN nb < 256 ^ (lsm1 + 1)) nbs /\
+    ns = map split_nalu nbs /\ sample_marshal lsm1 ns = spec_sample lsm1 (map clear_forbidden nbs).
+Proof. exact (sample_reenc_canonicalises lsm1 data ns). Qed.
+
+Theorem c12_nalu_reader_inversion data n :
+  wf_bytes data -> nalu_unmarshal data = Ok n ->
+  (exists x, data = x :: ndata n /\ nref n = (x / 32) mod 4 /\ ntype n = x mod 32) /\
+  nalu_marshal n = clear_forbidden data.
+Proof. intros W E. split; [exact (nalu_unmarshal_inv data n E)|exact (nalu_reenc data n W E)]. Qed.
+
 (* Totality: no byte string makes a reader panic, for any receiver state and -- for the sample
    reader -- any length size 1..256 (lsm1 any uint8; cd951da); the sample loop's fuel is never
    the reason for stopping. *)
@@ -241,6 +259,8 @@ Print Assumptions c12_iso_read.
 Print Assumptions c12_canonical_reenc.
 Print Assumptions c12_reader_inversion.
 Print Assumptions c12_reenc_canonicalises.
+Print Assumptions c12_sample_reader_inversion.
+Print Assumptions c12_nalu_reader_inversion.
 Print Assumptions avc_nalu_dec_total.
 Print Assumptions avc_record_dec_total.
 Print Assumptions avc_sample_dec_total.
